@@ -11,6 +11,9 @@ void vs_begin(const char* sched_line);
 // Release control: every later vs_point is a no-op (other threads stay parked for ever).
 void vs_end(void);
 int  vs_active(void);
+// after vs_end(), while the caller is the only running thread: treat `n` consecutive yields/pauses without any
+// value-changing atomic write as a SPIN-FIXPOINT (0 = off)
+void vs_inactive_spin_limit(long n);
 // k decision points of "time" on the calling thread.
 void vs_work(int k);
 // strictly increasing logical clock (consistent with real order: only the baton holder runs)
